@@ -187,6 +187,25 @@ Theorem C03_subtotal_totals_scanned : forall q blanks AND sh (c : cfg) E cs (rec
 Proof. exact subtotal_totals_scanned. Qed.
 Print Assumptions C03_subtotal_totals_scanned.
 
+(** tally() with several arguments: one store per argument (a blank value is not stored; a missing cell counts as the
+    text None) and one under the values joined by '|'; every other key and dictionary is left alone *)
+Theorem C03_tally_arg_step : forall blanks AND s l i,
+  let d := 100 + Z.of_nat i in let key := tally_text l i in let r := do_agg blanks AND s l (TallyS i) in
+  snd r = true /\
+  (is_blank_text key = true -> fst r = s) /\
+  (is_blank_text key = false ->
+     dget (x mx (fst r)) d key = Some (VI (num_of (dget (x mx s) d key) + 1)) /\
+     (forall key', key <> key' -> dget (x mx (fst r)) d key' = dget (x mx s) d key')).
+Proof. exact tally_arg_step. Qed.
+Print Assumptions C03_tally_arg_step.
+Theorem C03_tally_combined_step : forall blanks AND s l i j,
+  let key := tally_text l i ++ [124] ++ tally_text l j in let r := do_agg blanks AND s l (TallyC i j) in
+  snd r = true /\ dget (x mx (fst r)) 99 key = Some (VI (num_of (dget (x mx s) 99 key) + 1)) /\
+  (forall key', key <> key' -> dget (x mx (fst r)) 99 key' = dget (x mx s) 99 key') /\
+  (forall d key', d <> 99 -> dget (x mx (fst r)) d key' = dget (x mx s) d key').
+Proof. exact tally_combined_step. Qed.
+Print Assumptions C03_tally_combined_step.
+
 Example C03_tally_once_nonvacuous :
   tally_once 1 [CB (BExists 0); CAgg (Tally 1); CAgg (First 7 1); CAct (Agg (AssignK 5 [116] NCount))] /\
   wf (From 1) /\ parse false (ast_of (From 1)) = Some (mkSc [] (Some 1) None true).
